@@ -343,3 +343,25 @@ SPECS["C15"] = ("""property C15: event references stay valid and unchanged while
    "exists steps m off, known_class steps = true /\\ ref_addr (m_run steps m) off <> ref_addr m off",
    "refs_move_witness", "the exclusion is provably non-empty: the property as stated is false when the kernel relocates the mapping"),
   ], "")
+
+SPECS["C14"] = ("""property C14: concurrent stores serialize; concurrent queries see only whole committed states.
+   Two-step interleaving model (Conc.v): a writer acquires the single write lock (blocking while it is
+   held) and later applies its whole operation, commits and releases; a reader takes a snapshot and
+   later answers from it; a schedule is ANY list of thread ids.  Proved for every schedule and every
+   set of thread programs: the responses recorded at the linearization points (commit step of writers,
+   snapshot step of readers) are exactly those of executing the operations one at a time in that order,
+   and the final shared state is that sequential execution's final state; the shared state changes only
+   at a writer's commit step; everything a snapshot can reach stays readable in every later state.
+   PARTIAL for what the model cannot exhibit: the memory model, LMDB's reader table, the remap hazard
+   (C15's known finding; schedules stay below one growth step).""",
+  "From Pocket Require Import Db DbProofs Conc ConcProofs.", [
+  ("C14_linearizable",
+   "forall now s0 progs sched, let g := exec now sched (g_init s0 progs) in\n    replay now s0 (g_lin g) = (g_db g, map (fun x => snd x) (g_lin g))",
+   "exec_linearizable", "any number of threads, any programs, any schedule"),
+  ("C14_state_changes_only_at_commit",
+   "forall now g tid, g_db (step now g tid) <> g_db g ->\n    exists t o, nth_error (g_threads g) tid = Some t /\\ th_cur t = Some (o, None)",
+   "step_state_changes_only_at_commit", "a reader never observes a partially applied store: there is none"),
+  ("C14_snapshot_bytes_stay_readable",
+   "forall s off e ops, get_event_by_offset s off = Ok e -> get_event_by_offset (c_run ops s) off = Ok e",
+   "snapshot_bytes_stay_readable", "an index entry a reader holds never leads to unreadable bytes"),
+  ], "")
